@@ -174,6 +174,10 @@ enum E32 : int32_t
 };
 inline auto format_as(E32 e) { return static_cast<int>(e); }
 
+/** hooks defined by each harness: h5 counts copies / formatter calls made by the calling thread inside its window */
+void note_copy();
+void note_format();
+
 /** thread that ran the last formatter of each user type (C11) */
 struct FmtTrace
 {
@@ -191,6 +195,7 @@ struct FmtTrace
   {
     tid(which).store(static_cast<long>(::syscall(SYS_gettid)));
     calls(which).fetch_add(1);
+    note_format();
   }
 };
 
@@ -209,7 +214,7 @@ struct NonPod8
   uint32_t z{0};
   NonPod8() = default;
   NonPod8(uint64_t x_, uint32_t y_, uint32_t z_) : x(x_), y(y_), z(z_) {}
-  NonPod8(NonPod8 const& o) : x(o.x), y(o.y), z(o.z) {}
+  NonPod8(NonPod8 const& o) : x(o.x), y(o.y), z(o.z) { note_copy(); }
   NonPod8(NonPod8&& o) noexcept : x(o.x), y(o.y), z(o.z) {}
   NonPod8& operator=(NonPod8 const&) = default;
 };
@@ -218,7 +223,11 @@ struct alignas(16) NonPod16
 {
   uint32_t v[4]{};
   NonPod16() = default;
-  NonPod16(NonPod16 const& o) { std::memcpy(v, o.v, sizeof(v)); }
+  NonPod16(NonPod16 const& o)
+  {
+    std::memcpy(v, o.v, sizeof(v));
+    note_copy();
+  }
   NonPod16(NonPod16&& o) noexcept { std::memcpy(v, o.v, sizeof(v)); }
   NonPod16& operator=(NonPod16 const&) = default;
 };
@@ -227,6 +236,11 @@ struct NonPodStr
 {
   std::string s;
   int32_t k{0};
+  NonPodStr() = default;
+  NonPodStr(NonPodStr const& o) : s(o.s), k(o.k) { note_copy(); }
+  NonPodStr(NonPodStr&& o) noexcept : s(std::move(o.s)), k(o.k) {}
+  NonPodStr& operator=(NonPodStr const&) = default;
+  NonPodStr& operator=(NonPodStr&&) = default;
 };
 /** formatted on the caller */
 struct Direct
